@@ -631,6 +631,7 @@ impl<'f, 'i, 't> Parser<'f, 'i, 't> {
         // trait implementation.
         let dt = Offset::UTC.to_datetime(timestamp);
         let (d, t) = (dt.date(), dt.time());
+        self.tm.timestamp = Some(timestamp);
         self.tm.offset = Some(Offset::UTC);
         self.tm.year = Some(d.year_ranged());
         self.tm.month = Some(d.month_ranged());
